@@ -272,7 +272,7 @@ def judge (sc : Scenario) (evs : List (Proc × Ev)) : List String :=
         | some q => { o with live := o.live ++ [(i, q)] }
         | none => { o with viol := s!"C04:sub{i} was sent a message that is neither published nor returned by Put" :: o.viol }
       let o := if o.returnedSubs.contains i then
-        { o with viol := s!"C06:sub{i} was written to after its Subscribe returned" :: o.viol } else o
+        { o with viol := s!"C03:sub{i} was sent a message after its Subscribe returned (it is no longer a subscriber)" :: s!"C06:sub{i} was written to after its Subscribe returned" :: o.viol } else o
       let o := if o.ownFailed.contains i then
         { o with viol := s!"C17:sub{i} is still being sent to after its own Send/Flush failed (it must have been removed)" :: o.viol } else o
       if sendOk && flushOk then o
@@ -361,6 +361,8 @@ def factsTag (f : String) : List String :=
   ((f.drop 4).toString.splitOn ",").flatMap fun x =>
     -- (C06: "Subscribe returns the subscriber's own … error if one occurred"; C17: "… and gets the error from Subscribe")
     if x.startsWith "SUBSCRIBE-DROPPED-JOES-VERDICT" then ["C06:" ++ x, "C17:" ++ x] else
+    -- (C03 as well: a subscriber whose Subscribe call has returned is no longer registered — "never to any other subscriber")
+    if x.startsWith "CALL-AFTER-RETURN" then ["C06:" ++ x, "C03:" ++ x] else
     List.singleton <|
     if x.startsWith "CALL-AFTER-RETURN" then "C06:" ++ x
     else if x.startsWith "REPLAYER-USED-AFTER-PANIC" || x.startsWith "REJECTED-WITHOUT-REPLAY-ERROR"
